@@ -117,8 +117,24 @@ fn judge(case: &Case, o: &Outcome, tallies: &mut BTreeMap<String, u64>) -> Vec<(
             if idle + EPS_US < tmo {
                 let half_closed = (0..2).any(|d| direction_finished(o, d).map(|f| f <= end).unwrap_or(false));
                 if half_closed {
-                    bad.push(("half-closed tunnel closed by the remaining direction's timer less than T after the last data transfer".into(),
-                              detail(format!("idle_us={} last_data_us={}", idle, last))));
+                    // which direction is still open, and when did *it* last move data?
+                    let open_last = (0..2).filter(|d| !direction_finished(o, *d).map(|f| f <= end).unwrap_or(false)).flat_map(|d| {
+                        let mut v = vec![];
+                        for l in [&o.src_logs[d], &o.snk_logs[d]] {
+                            for (at, e) in &l.lock().unwrap().events {
+                                let at = at.as_micros() as u64;
+                                if at <= end && (matches!(e, Ev::ReadChunk(_)) || matches!(e, Ev::Write { accepted, .. } if *accepted > 0)) { v.push(at); }
+                            }
+                        }
+                        v
+                    }).max();
+                    match open_last {
+                        // the open direction itself was active less than T ago: no timer of any direction had a reason to fire
+                        Some(x) if end - x + EPS_US < tmo => bad.push(("half-closed tunnel closed although its open direction transferred data less than T ago".into(),
+                              detail(format!("open_direction_idle_us={} last_data_us={}", end - x, last)))),
+                        _ => bad.push(("half-closed tunnel closed by the remaining direction's timer less than T after the last data transfer".into(),
+                              detail(format!("idle_us={} last_data_us={}", idle, last)))),
+                    }
                 } else {
                     bad.push(("idle timer closed the tunnel less than T after the last data transfer".into(),
                               detail(format!("idle_us={} last_data_us={}", idle, last))));
